@@ -258,6 +258,13 @@ pub fn gen(rng: &mut Rng, tier: Tier, out: &mut Vec<String>) {
             out.push(format!("solve f {} {}", rows_str(&a, n, n), gen_vec_str::<f64>(rng, n, 0, 1)));
             let a = gen_square::<Cmplx>(rng, n, class);
             out.push(format!("solve c {} {}", rows_str(&a, n, n), gen_vec_str::<Cmplx>(rng, n, 10, 0)));
+            // graded systems: dominant diagonal of either sign (or purely imaginary), tiny entries below it —
+            // the pivot search must keep the diagonal; choosing a tiny sub-diagonal entry destroys the accuracy
+            let mut g = gen_square::<f64>(rng, n, 0);
+            for i in 0..n { for j in 0..n { g[i][j] = if i == j { -(1.0 + rng.unit()) * if rng.chance(70) { 1.0 } else { -1.0 } } else if i > j { 1e-18 * rng.f_general(1.0) } else { rng.f_general(0.5) }; } }
+            out.push(format!("solve f {} {}", rows_str(&g, n, n), gen_vec_str::<f64>(rng, n, 0, 1)));
+            let gc: Vec<Vec<Cmplx>> = g.iter().enumerate().map(|(i, r)| r.iter().enumerate().map(|(j, x)| if i == j { Cmplx::new(0.0, *x * 2.0) } else { Cmplx::new(*x, 0.0) }).collect()).collect();
+            out.push(format!("solve c {} {}", rows_str(&gc, n, n), gen_vec_str::<Cmplx>(rng, n, 0, 1)));
         }
     } } }
     // malformed: non-square / wrong rhs length, order 0
